@@ -102,3 +102,17 @@ contract("C17.run_operations", file="hed/tools/remodeling/dispatcher.py", func="
          ensures={"C17.pipeline.result_in_text_form": "stage == 0"},
          loops={0: {"ghost": {"stage": "Int"}, "invariant": ["stage == 0"]}},
          assume=["prep_data / post_proc_data / do_op modelled as typestate transitions of the table (text form -> NaN form -> operation output -> text form)"])
+
+# C17 "a list that passes validation runs to completion": every map_list entry must have exactly one value per source and destination column
+class_model("RemapParamsM", {"map_list": "List[List[Str]]", "source_columns": "List[Str]", "destination_columns": "List[Str]",
+                             "integer_sources": "List[Str]", "has_integer_sources": "Bool"})
+contract("C17.remap_columns.validate_input_data", file="hed/tools/remodeling/operations/remap_columns_op.py",
+         func="RemapColumnsOp.validate_input_data", params={"parameters": "RemapParamsM"}, returns="List[Str]", enc="native",
+         lets={"need": "len(parameters.source_columns) + len(parameters.destination_columns)"},
+         ensures={
+             "C17.validate.entry_of_wrong_length_rejected": "implies(any(len(parameters.map_list[k]) != need for k in range(len(parameters.map_list))), len(result) > 0)",
+             "C17.validate.well_formed_accepted": "implies(all(len(parameters.map_list[k]) == need for k in range(len(parameters.map_list)))"
+                                                  " and (not parameters.has_integer_sources or all(parameters.integer_sources[k] in parameters.source_columns"
+                                                  " for k in range(len(parameters.integer_sources)))), len(result) == 0)",
+         },
+         loops={0: {"invariant": ["all(len(parameters.map_list[k]) == len(parameters.source_columns) + len(parameters.destination_columns) for k in range(_n))"]}})
